@@ -45,6 +45,9 @@ CHECKS = {
  "C08": ("exploration", "schema-walk mutation monitor on node-formatted blocks (1..17 transactions, with / without certificate, failed-tx map, target bits): every single-field mutant as is and with the id recomputed, body edits (insert fresh / duplicate at every position, drop, swap, replace; merkle field recomputed or not), re-signing with another key",
          "Runtime oracle over ~18k verifications per quick run; complete for single edits of the generated blocks.",
          "Trusted: SHA-256 / ECDSA; explicit set of fields outside the three bindings (height, in_trunk, next_hash, merkle_tree list, failed-tx keys, transaction content other than its id).", "DESIGN.md §3 C08"),
+ "C16": ("exploration", "per-millisecond tiling audit of the tdpos / xpoa slot schedules over a parameter box + random configurations, acceptance matrix through the public CheckMinerMatch of real tdpos / xpoa / single / pow instances over stub ledgers (every validator, outsider, empty proposer, slot edges), PoW IsProofed / retarget against an independent Bitcoin-style model, compact encoding against an independent codec",
+         "Exhaustive over the small configuration box (every ms of 3 terms), sampled beyond; ~13M evaluations per quick run.",
+         "Trusted: the relational tiling auditor and the independent retarget / compact implementations in cmd/c16; stub ledger / contract objects.", "DESIGN.md §3 C16"),
 }
 NOT_YET = "check not built yet in this session (work in progress; see DESIGN.md for the planned monitor)"
 ALL = ["C%02d" % i for i in range(1, 21)]
@@ -75,7 +78,7 @@ def main():
             "guard": "verif",
             "enable": "go build -tags verif (bin/check builds every check binary from /repo's working tree through a replace directive)",
             "baseline_off_cmd": BASE,
-            "source_commits": ["46bedf2"],
+            "source_commits": ["46bedf2", "830ccff"],
             "add_only": True,
         },
         "engines": [{"name": "harness", "path": "/verif/harness", "serves_properties": [c["property_id"] for c in checks],
